@@ -1,6 +1,7 @@
 package main
 
 import (
+	"sort"
 	"encoding/json"
 	"html"
 	"fmt"
@@ -50,6 +51,19 @@ func init() {
 		"(*sync.Mutex).Unlock":              iMutexUnlock,
 		"reflect.TypeOf":                    iReflectTypeOf,
 		"(*reflect.rtype).Comparable":       iRtypeComparable,
+		"(*reflect.rtype).Kind":             iRtypeKind,
+		"(*reflect.rtype).String":           iRtypeString,
+		"(*reflect.rtype).Name":             iRtypeName,
+		"(*reflect.rtype).Elem":             iRtypeElem,
+		"(*reflect.rtype).NumField":         iRtypeNumField,
+		"(*reflect.rtype).Field":            iRtypeField,
+		"(*reflect.rtype).NumMethod":        iRtypeNumMethod,
+		"(*reflect.rtype).PkgPath":          iRtypePkgPath,
+		"(reflect.Value).Type":              iReflType,
+		"(reflect.Value).NumMethod":         iReflNumMethod,
+		"(reflect.Value).CanInterface":      iReflCanInterface,
+		"(reflect.Value).CanAddr":           iReflCanAddr,
+		"(reflect.Kind).String":             iKindString,
 		"reflect.ValueOf":                   iReflectValueOf,
 		"(reflect.Value).Kind":              iReflKind,
 		"(reflect.Value).Elem":              iReflElem,
@@ -534,7 +548,59 @@ func (in *Interp) fmtOperandM(v Value, verb byte, sharp bool, methods bool) ([]*
 			if m == nil || len(m.keys) == 0 {
 				return in.mkStr("map[]").b, true
 			}
-			return nil, false
+			// fmt prints maps sorted by key: modelled for concrete string or integer keys
+			type kv struct {
+				ks string
+				ki int64
+				k  Value
+				v  Value
+			}
+			var kvs []kv
+			isStr := false
+			for i, k := range m.keys {
+				switch kk := k.(type) {
+				case StrV:
+					cs, ok := concreteString(kk)
+					if !ok {
+						return nil, false
+					}
+					isStr = true
+					kvs = append(kvs, kv{ks: cs, k: k, v: m.vals[i]})
+				case *Term:
+					if kk.op != OpConst {
+						return nil, false
+					}
+					kvs = append(kvs, kv{ki: signExt(kk.val, kk.sort), k: k, v: m.vals[i]})
+				default:
+					return nil, false
+				}
+			}
+			sort.Slice(kvs, func(a, b int) bool {
+				if isStr {
+					return kvs[a].ks < kvs[b].ks
+				}
+				return kvs[a].ki < kvs[b].ki
+			})
+			out := in.mkStr("map[").b
+			for i, e := range kvs {
+				if i > 0 {
+					out = append(out, in.tt.b8[' '])
+				}
+				kb, ok := in.fmtOperandM(IfaceV{t: u.Key(), v: e.k}, 'v', false, methods)
+				if !ok {
+					return nil, false
+				}
+				ev := IfaceV{t: u.Elem(), v: e.v}
+				if _, isIface := u.Elem().Underlying().(*types.Interface); isIface {
+					ev = e.v.(IfaceV)
+				}
+				vb, ok := in.fmtOperandM(ev, 'v', false, methods)
+				if !ok {
+					return nil, false
+				}
+				out = append(append(append(out, kb...), in.tt.b8[':']), vb...)
+			}
+			return append(out, in.tt.b8[']']), true
 		}
 	case *types.Pointer:
 		if verb == 'v' && !sharp {
@@ -1319,6 +1385,151 @@ func iReflectTypeOf(in *Interp, fn *ssa.Function, a []Value) Value {
 func iRtypeComparable(in *Interp, fn *ssa.Function, a []Value) Value {
 	t := a[0].(*OpaqueV).data.(types.Type)
 	return in.tt.Bool(types.Comparable(t))
+}
+
+func rtypeOf(v Value) types.Type { return v.(*OpaqueV).data.(types.Type) }
+
+func iRtypeKind(in *Interp, fn *ssa.Function, a []Value) Value {
+	return in.tt.Const(64, reflKind(rtypeOf(a[0])))
+}
+
+func iRtypeString(in *Interp, fn *ssa.Function, a []Value) Value {
+	return in.mkStr(types.TypeString(rtypeOf(a[0]), func(p *types.Package) string { return p.Name() }))
+}
+
+func iRtypeName(in *Interp, fn *ssa.Function, a []Value) Value {
+	switch t := rtypeOf(a[0]).(type) {
+	case *types.Named:
+		return in.mkStr(t.Obj().Name())
+	case *types.Basic:
+		return in.mkStr(t.Name())
+	}
+	return in.mkStr("")
+}
+
+func iRtypePkgPath(in *Interp, fn *ssa.Function, a []Value) Value {
+	if t, ok := rtypeOf(a[0]).(*types.Named); ok && t.Obj().Pkg() != nil {
+		return in.mkStr(t.Obj().Pkg().Path())
+	}
+	return in.mkStr("")
+}
+
+func iRtypeElem(in *Interp, fn *ssa.Function, a []Value) Value {
+	var e types.Type
+	switch u := rtypeOf(a[0]).Underlying().(type) {
+	case *types.Pointer:
+		e = u.Elem()
+	case *types.Slice:
+		e = u.Elem()
+	case *types.Array:
+		e = u.Elem()
+	case *types.Map:
+		e = u.Elem()
+	case *types.Chan:
+		e = u.Elem()
+	default:
+		panic(goPanic{msg: "panic: reflect: Elem of invalid type " + rtypeOf(a[0]).String(), fn: "reflect.Type.Elem"})
+	}
+	return IfaceV{t: in.ld.rtypePtrT, v: &OpaqueV{kind: "rtype", data: e}}
+}
+
+func iRtypeNumField(in *Interp, fn *ssa.Function, a []Value) Value {
+	st, ok := rtypeOf(a[0]).Underlying().(*types.Struct)
+	if !ok {
+		panic(goPanic{msg: "panic: reflect: NumField of non-struct type " + rtypeOf(a[0]).String(), fn: "reflect.Type.NumField"})
+	}
+	return in.intTerm(st.NumFields())
+}
+
+// iRtypeField builds the reflect.StructField of field i (Name, PkgPath, Type, Tag, Index, Anonymous;
+// Offset is left 0).
+func iRtypeField(in *Interp, fn *ssa.Function, a []Value) Value {
+	st, ok := rtypeOf(a[0]).Underlying().(*types.Struct)
+	if !ok {
+		panic(goPanic{msg: "panic: reflect: Field of non-struct type " + rtypeOf(a[0]).String(), fn: "reflect.Type.Field"})
+	}
+	i := in.intOf(a[1], "reflect.Type.Field index")
+	if i < 0 || i >= st.NumFields() {
+		panic(goPanic{msg: "panic: reflect: Field index out of bounds", fn: "reflect.Type.Field"})
+	}
+	rp := in.prog.ImportedPackage("reflect")
+	if rp == nil {
+		in.unsupported("reflect.Type.Field: package reflect not loaded")
+	}
+	sft := rp.Type("StructField").Type()
+	sfs := sft.Underlying().(*types.Struct)
+	f := st.Field(i)
+	vals := append([]Value(nil), in.zero(sft).(*StructV).f...)
+	for k := 0; k < sfs.NumFields(); k++ {
+		switch sfs.Field(k).Name() {
+		case "Name":
+			vals[k] = in.mkStr(f.Name())
+		case "PkgPath":
+			if !f.Exported() && f.Pkg() != nil {
+				vals[k] = in.mkStr(f.Pkg().Path())
+			}
+		case "Type":
+			vals[k] = IfaceV{t: in.ld.rtypePtrT, v: &OpaqueV{kind: "rtype", data: f.Type()}}
+		case "Tag":
+			vals[k] = in.mkStr(st.Tag(i))
+		case "Anonymous":
+			vals[k] = in.tt.Bool(f.Embedded())
+		}
+	}
+	return &StructV{f: vals}
+}
+
+func (in *Interp) numExportedMethods(t types.Type) int {
+	ms := in.prog.MethodSets.MethodSet(t)
+	n := 0
+	for i := 0; i < ms.Len(); i++ {
+		if ms.At(i).Obj().Exported() {
+			n++
+		}
+	}
+	return n
+}
+
+func iRtypeNumMethod(in *Interp, fn *ssa.Function, a []Value) Value {
+	return in.intTerm(in.numExportedMethods(rtypeOf(a[0])))
+}
+
+func iReflType(in *Interp, fn *ssa.Function, a []Value) Value {
+	r := a[0].(*ReflV)
+	if r.zero {
+		panic(goPanic{msg: "panic: reflect: call of reflect.Value.Type on zero Value", fn: "reflect.Value.Type"})
+	}
+	return IfaceV{t: in.ld.rtypePtrT, v: &OpaqueV{kind: "rtype", data: r.typ}}
+}
+
+func iReflNumMethod(in *Interp, fn *ssa.Function, a []Value) Value {
+	r := a[0].(*ReflV)
+	if r.zero {
+		panic(goPanic{msg: "panic: reflect: call of reflect.Value.NumMethod on zero Value", fn: "reflect.Value.NumMethod"})
+	}
+	return in.intTerm(in.numExportedMethods(r.typ))
+}
+
+func iReflCanInterface(in *Interp, fn *ssa.Function, a []Value) Value {
+	r := a[0].(*ReflV)
+	if r.zero {
+		panic(goPanic{msg: "panic: reflect: call of reflect.Value.CanInterface on zero Value", fn: "reflect.Value.CanInterface"})
+	}
+	return in.tt.tT // values reached through unexported fields are outside the model (FieldByName/Field report them as supported only when exported)
+}
+
+func iReflCanAddr(in *Interp, fn *ssa.Function, a []Value) Value {
+	return in.tt.Bool(a[0].(*ReflV).ptr != nil)
+}
+
+var kindNames = []string{"invalid", "bool", "int", "int8", "int16", "int32", "int64", "uint", "uint8", "uint16", "uint32", "uint64", "uintptr", "float32", "float64", "complex64", "complex128", "array", "chan", "func", "interface", "map", "ptr", "slice", "string", "struct", "unsafe.Pointer"}
+
+func iKindString(in *Interp, fn *ssa.Function, a []Value) Value {
+	k := in.concretize(a[0].(*Term), "reflect.Kind")
+	if k >= 0 && int(k) < len(kindNames) {
+		return in.mkStr(kindNames[k])
+	}
+	return in.mkStr("kind" + strconv.Itoa(int(k)))
 }
 
 func iReflectValueOf(in *Interp, fn *ssa.Function, a []Value) Value {
